@@ -73,6 +73,10 @@ func (g *Gen) many() (int, bool) {
 	if _, ok := g.ladder(); !ok {
 		return 0, false
 	}
+	if g.R.Chance(1, 6) {
+		// now and then a thousand and more (counters and limits that only many SIBLINGS reach)
+		return []int{999, 1000, 1001, 1024, 1025, 2049}[g.R.Intn(6)], true
+	}
 	return manyLadder[g.R.Intn(len(manyLadder))], true
 }
 
